@@ -21,7 +21,7 @@ for f in sorted(glob.glob(V + '/seeded/*/*.json') + glob.glob(V + '/seeded/*/aft
     if not isinstance(h, list) or not h or not all(isinstance(x, str) for x in h):
         continue
     comp = BASE.get(o.get('component', ''), o.get('component', ''))
-    if comp not in ('engine', 'sm', 'rg', 'tb', 'pots', 'ev', 'best'):
+    if comp not in ('engine', 'sm', 'rg', 'tb', 'pots', 'ev', 'best', 'drv'):
         continue
     key = hashlib.sha1(('\n'.join(h)).encode()).hexdigest()
     if (comp, key) in seen:
